@@ -14,7 +14,7 @@ ASAN  := $(COMMON) -O1 -fsanitize=address -fno-omit-frame-pointer -DSIM_BUILD_NA
 TLS   := $(COMMON) -O1 -DRLBOX_EMBEDDER_PROVIDES_TLS_STATIC_VARIABLES -DSIM_BUILD_NAME='"tls"'
 LIBS := -lpthread -ldl
 
-TARGETS := apptoken mem callback callback.tls invoke toctou toctou.asan bulk bulk.asan
+TARGETS := apptoken mem callback callback.tls invoke toctou toctou.asan bulk bulk.asan transition.hooks transition.timing transition.both
 
 all: $(addprefix $(B)/,$(TARGETS))
 
@@ -42,6 +42,13 @@ $(B)/bulk: worlds/bulk.cpp $(HDRS) $(SIMH) | $(B)
 	$(CXX) $(PLAIN) $< -o $@ $(LIBS) -Wl,--wrap=malloc
 $(B)/bulk.asan: worlds/bulk.cpp $(HDRS) $(SIMH) | $(B)
 	$(CXX) $(ASAN) $< -o $@ $(LIBS) -Wl,--wrap=malloc
+
+$(B)/transition.hooks: worlds/transition.cpp $(B)/guestlib.o $(HDRS) $(SIMH) | $(B)
+	$(CXX) $(PLAIN) -DTR_HOOKS -DSIM_BUILD_NAME='"hooks"' $< $(B)/guestlib.o -o $@ $(LIBS)
+$(B)/transition.timing: worlds/transition.cpp $(B)/guestlib.o $(HDRS) $(SIMH) | $(B)
+	$(CXX) $(PLAIN) -DTR_TIMING -DSIM_BUILD_NAME='"timing"' $< $(B)/guestlib.o -o $@ $(LIBS)
+$(B)/transition.both: worlds/transition.cpp $(B)/guestlib.o $(HDRS) $(SIMH) | $(B)
+	$(CXX) $(PLAIN) -DTR_HOOKS -DTR_TIMING -DSIM_BUILD_NAME='"both"' $< $(B)/guestlib.o -o $@ $(LIBS)
 
 $(B)/%: worlds/%.cpp $(HDRS) $(SIMH) | $(B)
 	$(CXX) $(PLAIN) $< -o $@ $(LIBS)
